@@ -11,7 +11,7 @@ from hypothesis import strategies as st
 
 from cpverif import gen_kernel as G
 from cpverif.oracles import fd_check_vec, rng_from
-from cpverif.runner import Skip, Violation, subcheck
+from cpverif.runner import Skip, subcheck
 
 SEED = st.integers(0, 2**31 - 1)
 
@@ -64,6 +64,11 @@ def index_form(idx):
     if b is None:
         return "slice[stop=None,step>1]" if (c is not None and c > 1) else "slice[stop=None]"
     return "slice[step>1]" if (c is not None and c > 1) else "slice"
+
+
+def _lsq(ls):
+    """length scales to the nearest power of two: the part of them that enters the distinctness key"""
+    return [int(round(float(np.log2(v)))) for v in ls]
 
 
 def reference(kernel, X, Xc, alpha):
@@ -142,7 +147,7 @@ def c_rbf(case, ctx):
     S = float(np.sum(np.abs(alpha))) * scale
     Sg = S / float(np.min(np.array(case["ls"])[cols]))
     if len(cols) >= 2 and case["nctrl"] >= 2:
-        ctx.nontrivial([form, proper, n1, len(cols), case["scale"] is None, case["via"]])
+        ctx.nontrivial([form, proper, n1, cols, case["scale"] is None, case["via"], _lsq(case["ls"])])
     ev = G.guard(ctx, ("evaluator_constructor", form), lambda: RBFEvaluator(kernel, Xc, alpha), always=True)
     got_idx = getattr(ev, "_indexes", None)
     stride_ok = True
@@ -213,7 +218,7 @@ def c_antisym(case, ctx):
     Xc = rng.uniform(-1.5, 1.5, (case["nctrl"], n1))
     X = rng.uniform(-1.5, 1.5, (case["n"], n1))
     alpha = alpha_weights(case["nctrl"], rng)
-    ctx.nontrivial([n1, cls, case["dim3"], case["nctrl"] > 1])
+    ctx.nontrivial([n1, cls, case["dim3"], min(case["nctrl"], 3), _lsq(case["ls"])])
     f_ref = kernel(X, Xc).dot(alpha)
     S = 2.0 * float(np.sum(np.abs(alpha))) * sc
     ev = G.guard(ctx, ("evaluator_constructor", cls), lambda: AntisymRBFEvaluator(kernel, Xc, alpha), always=True)
@@ -280,7 +285,7 @@ def c_spin(case, ctx):
     if case["equal_spins"]:
         X[1] = X[0]
     else:
-        ctx.nontrivial([cls, n1, case["nctrl"] > 1])
+        ctx.nontrivial([cls, n1, min(case["nctrl"], 3), _lsq(case["ls"])])
     alpha = alpha_weights(case["nctrl"], rng)
     scal = sc if hasattr(kernel, "k1") else 1.0
     S = 2.0 * float(np.sum(np.abs(alpha))) * scal**2
@@ -438,7 +443,7 @@ def _spline_simple(case, ctx):
     cls = "dim%d/%s" % (len(cols), index_form(idx))
     ctx.event("class=" + cls)
     if len(cols) >= 2:
-        ctx.nontrivial([cls, n1, cols])
+        ctx.nontrivial([cls, n1, cols, _lsq(case["ls"])])
     S = float(np.sum(np.abs(alpha))) * case["scale"]
     Sg = S / float(np.min(ls[cols]))
 
@@ -547,7 +552,7 @@ def _spline_additive(case, ctx):
     ctx.event("class=%s/na=%d" % (cls, nd))
     ctx.event("index=" + case["aidx"]["k"])
     if order >= 2 or (order >= 1 and nd >= 2):
-        ctx.nontrivial([cls, n1, acols, scols])
+        ctx.nontrivial([cls, n1, acols, scols, _lsq(case["ls"])])
     amp = 1.0
     if kind == "addllrbf":
         amp = float(np.max(1.0 + np.maximum(np.abs(lo), np.abs(hi))[acols] ** 2 / (case["alpha_rq"] * ls[acols] ** 2)))
@@ -762,7 +767,7 @@ def whole_path(case, ctx):
     ctx.event("mode=%s/plan=%s/nspin=%d" % (mode, plan, nspin))
     ctx.event("baseline=%s+%s" % (case["mul"], case["add"]))
     if case["nctrl"] >= 2 and (case["mul"] != "ONE" or nspin == 2):
-        ctx.nontrivial([mode, plan, nspin, case["mul"], case["add"], n1])
+        ctx.nontrivial([mode, plan, nspin, case["mul"], case["add"], n1, min(case["nctrl"], 4), case["nsamp"]])
     plans = {"c_rbf": lambda d: RBFEvaluator(d.kernel, d.X1ctrl, d.alpha),
              "c_spin": lambda d: SpinRBFEvaluator(d.kernel, d.X1ctrl, d.alpha),
              "kernel_eval": lambda d: KernelEvaluator(d.kernel, d.X1ctrl, d.alpha),
